@@ -20,7 +20,7 @@ fn plans_mut(op: &mut Op) -> Vec<&mut Plan> {
 
 fn date_mut(op: &mut Op) -> Option<&mut D> {
     match op {
-        Op::Insert(d) | Op::InsertViaYear(d) | Op::Contains(d) | Op::FirstAfter(d) | Op::Year(d, _, _) => Some(d),
+        Op::Insert(d) | Op::InsertViaYear(d) | Op::SnapQuery(_, d) | Op::Contains(d) | Op::FirstAfter(d) | Op::Year(d, _, _) => Some(d),
         _ => None,
     }
 }
